@@ -41,13 +41,13 @@ def run(ctx):
         rule="exact oracle (GraphTheory.tla: K5/K3,3 subgraph after some sequence of edge contractions, cross-checked by TLC): every class n<=6 under "
              "ALL n! relabellings on dense/sparse + a view, %s classes of n=7%s. By construction (PlanarGen.tla, itself model-checked against the oracle "
              "on graphs up to 7 vertices): every state of the behaviours with <=3 operations and every state of 2 x %d randomised behaviours of 40 operations "
-             "(stacked triangulations, then edge deletions / subdivisions / pendant and isolated vertices / glued K4 blocks / new path components; K5 and "
-             "K3,3 with subdivisions, extra edges and vertices; K5 blocks glued onto planar graphs), rebuilt with the real EditableGraph operations on both representations and submitted to IsPlanar under 4 (non-planar) / 10 (planar) seeded relabellings + "
+             "(triangulations grown by face insertions and diagonal flips, then edge deletions / subdivisions / pendant and isolated vertices / glued K4 blocks / new path components; K5 and "
+             "K3,3 with subdivisions, extra edges and vertices; K5 blocks glued onto planar graphs; a triangulation plus one more edge), rebuilt with the real EditableGraph operations on both representations and submitted to IsPlanar under 4 (non-planar) / 10 (planar) seeded relabellings + "
              "a view, each call under recover and a 20 s watchdog. Non-trivial = connected, n>=4, neither complete nor edgeless."
              % ("all" if big else "120 seeded", ", 1500 seeded classes of n=8" if big else "", nsim),
         samples=["C11[class6](n=6,e=[3 4 5 6 7 8 10 11 12];721 variants)", "C11[gen-nonplanar](n=31,...;7 variants)", "C11[gen-planar](n=38,...;7 variants)"],
         exhaustive=False, acceptor_stats=st, inputs={k: v for k, v in inputs.items()})
-    ctx.assumptions += ["beyond n=7/8 the verdict is known by construction (Kuratowski / stacked triangulations), not by an independent oracle"]
+    ctx.assumptions += ["beyond n=7/8 the verdict is known by construction (Kuratowski subgraphs, Euler's bound on a triangulation plus one edge / triangulations by face insertion and flips), not by an independent oracle"]
     return vlib.finish(ctx, vlib.standard_confirm(ctx, ACC, ACC_CFG))
 
 
